@@ -1,5 +1,6 @@
 import ActsModel.Spec.Ref
 import ActsModel.Gen.Branch
+import ActsModel.Spec.Needs
 
 /-!
 # C04 — Control flow conforms to the YAML: order, branch selection, skips
@@ -255,6 +256,28 @@ step and the `else` branch does not run; when it is skipped the branches decide 
 theorem mixed_step_else (bs : List RBranch) (x : RAct) (xs : List RAct) :
     stepTaken bs (x :: xs) = (anyCondHolds bs || x.cond) ∧ stepTaken bs [] = anyCondHolds bs := by
   simp [stepTaken, firstActTakes]
+
+/-- **a needs-branch starts after a needed sibling finished, on the engine's stream** (K3, every stream, every instance of the branch —
+a step may be entered more than once): in a stream of creations and state writes that the monitor accepts, whenever a task of a branch
+with `needs` goes from `pending` to `running`, a task of a branch it names, created beneath the same task of the step, is in a terminal
+state at that point of the stream. This is the soundness of the run-time verdict `C04|needs-branch-started-early`. -/
+theorem accepted_needs_started_after_needed (needs : List (String × List String)) (pre post : List Acts.Spec.NEv) (tid : Nat)
+    (t : Acts.Spec.NTask) (ns : List String)
+    (h : Acts.Spec.needsMonitor needs [] 0 (pre ++ .tr tid .pending .running :: post) = none)
+    (ht : (Acts.Spec.needsRun needs [] 0 pre).find? (·.tid == tid) = some t) (hn : needs.lookup t.nid = some ns) :
+    ∃ s ∈ Acts.Spec.neededSiblings (Acts.Spec.needsRun needs [] 0 pre) t ns, s.state.isCompleted = true := by
+  obtain ⟨_, h2⟩ := Acts.Spec.needsMonitor_append needs pre [] 0 _ h
+  obtain ⟨h3, _⟩ := Acts.Spec.needsMonitor_none_cons needs _ _ _ _ h2
+  exact Acts.Spec.needsStep_pass needs _ _ tid t ns ht hn h3
+
+/-- non-vacuity: accepted when the needed sibling has ended first, rejected when it has not — also in a second pass of the step, where the
+ended sibling of the first pass does not count -/
+example : Acts.Spec.needsMonitor [("bN", ["bA"])] [] 0 [.new ⟨1, "s2", none, .none⟩, .new ⟨2, "bA", some 1, .none⟩, .new ⟨3, "bN", some 1, .none⟩,
+    .tr 3 .none .pending, .tr 2 .none .running, .tr 2 .running .completed, .tr 3 .pending .running] = none := by decide
+example : Acts.Spec.needsMonitor [("bN", ["bA"])] [] 0 [.new ⟨1, "s2", none, .none⟩, .new ⟨2, "bA", some 1, .none⟩, .new ⟨3, "bN", some 1, .none⟩,
+    .tr 2 .none .running, .tr 2 .running .completed, .tr 3 .none .pending, .tr 3 .pending .running,
+    .new ⟨4, "s2", none, .none⟩, .new ⟨5, "bA", some 4, .none⟩, .new ⟨6, "bN", some 4, .none⟩, .tr 5 .none .running, .tr 6 .none .pending,
+    .tr 6 .pending .running] = some (12, 6) := by decide
 
 /-- **a step starts only after its predecessor is terminal**: while a step of a list is unfinished, nothing of the later
 steps has started and only it can be waiting -/
